@@ -524,8 +524,10 @@ def maybeRestoreWithNode (a : Alloc) (cp : TCheckpoint) (ret : Ptr) : Out MaybeR
                 if a2.ghostHeap < len then (.error (.InternalError "ghost heap accounting error"), a2)
                 else
                   let a3 := { a2 with ghostHeap := a2.ghostHeap - len }
-                  match newAtom a3 buf with
-                  | (.error e, a4) => (.error e, a4)
-                  | (.ok p, a4) => (.ok (.replace p), a4)
+                  -- re-created as a heap atom (no `new_atom`: no limit checks, never inline)
+                  let start := a3.u8.length
+                  let u8' := a3.u8 ++ buf
+                  let idx := a3.atoms.length
+                  (.ok (.replace (.bytes idx)), { a3 with u8 := u8', atoms := a3.atoms ++ [(start, u8'.length)] })
 
 end Clvm.Alloc
